@@ -115,6 +115,21 @@ def write_random(m, seed, style=None):
     # --- DFS ------------------------------------------------------------------------------------------
     todo = list(atoms)
     rnd.shuffle(todo)
+    if st.get('start'):
+        # 'centres': labelled centres are tried first as component starts; 'centres-late': a labelled centre starts a later component
+        lab = [n for n in todo if atoms[n].stereo is not None]
+        if lab and st['start'] == 'centres':
+            todo = lab + [n for n in todo if n not in lab]
+        elif lab and st['start'] == 'centres-late':
+            comp, stack = {lab[0]}, [lab[0]]
+            while stack:
+                for k in bonds[stack.pop()]:
+                    if k not in comp:
+                        comp.add(k)
+                        stack.append(k)
+            other = [n for n in todo if n not in comp]
+            if other:
+                todo = [other[0], lab[0]] + [n for n in todo if n != other[0] and n != lab[0]]
     visited = {}
     order = []
     out = []
